@@ -1989,30 +1989,36 @@ func (e *nestEnv) opRejected() {
 	before, beforeTree := e.storageImage(), e.dumpExcept(nil, len(e.nodes))
 	var err error
 	wantKind := "IndexOutOfBounds:User"
+	var names []any // what the error must name: index and bounds / the key
 	if n.kind == 'a' {
 		switch e.rng.Intn(4) {
 		case 0:
 			i := len(n.elems) + e.rng.Intn(3)
 			w.L("OP arem h=%d i=%d", n.h, i)
 			_, err = n.arr.Remove(uint64(i))
+			names = []any{i, 0, len(n.elems)}
 		case 1:
 			i := len(n.elems) + e.rng.Intn(3)
 			v := e.plain(0)
 			w.L("OP aset h=%d i=%d v=%d:%d", n.h, i, v.Size, v.Pay)
 			_, err = n.arr.Set(uint64(i), v)
+			names = []any{i, 0, len(n.elems)}
 		case 2:
 			i := len(n.elems) + e.rng.Intn(3)
 			w.L("OP aget h=%d i=%d", n.h, i)
 			_, err = n.arr.Get(uint64(i))
+			names = []any{i, 0, len(n.elems)}
 		default:
 			i := len(n.elems) + 1 + e.rng.Intn(3)
 			v := e.plain(0)
 			w.L("OP ains h=%d i=%d v=%d:%d", n.h, i, v.Size, v.Pay)
 			err = n.arr.Insert(uint64(i), v)
+			names = []any{i, 0, len(n.elems)}
 		}
 	} else {
 		wantKind = "KeyNotFound:User"
 		k := hx.TV{Size: 9, Pay: uint64(500 + e.rng.Intn(80))}
+		names = []any{k}
 		if e.rng.Intn(2) == 0 {
 			w.L("OP mrem h=%d k=%s", n.h, e.keyStr(n, k))
 			_, _, err = n.mp.Remove(hx.CompareKey, e.hi(), k)
@@ -2029,6 +2035,8 @@ func (e *nestEnv) opRejected() {
 		w.L("OBS err:%s", hx.ErrKind(err))
 		if k := hx.ErrKind(err); k != wantKind {
 			e.violation("C18", fmt.Sprintf("a rejected request through the handle of nested container %d is reported as %s, expected %s", n.h, k, wantKind))
+		} else if d := hx.ErrNames(err, strings.SplitN(wantKind, ":", 2)[0], names...); d != "" {
+			e.violation("C18", fmt.Sprintf("a rejected request (%s) through the handle of nested container %d: %s", e.w.LastOp, n.h, d))
 		}
 	}
 	if eff := hx.NetEffect(e.rec.Effs); eff != "-" {
